@@ -56,7 +56,10 @@ func runFresh(sc *Scenario, race bool) *procResult {
 		env = append(env, "GORACE=halt_on_error=0 atexit_sleep_ms=0 log_path="+raceBase)
 	}
 	cmd := exec.Command(bin, "exec", f.Name())
-	cmd.Env = append(env, "GOMAXPROCS=4")
+	// One P: every task shares the same per-P caches (sync.Pool private slots), so an
+	// object handed from one task to another through a pool is seen; the scheduler
+	// serialises the tasks anyway.
+	cmd.Env = append(env, "GOMAXPROCS=1")
 	var so, se bytes.Buffer
 	cmd.Stdout, cmd.Stderr = &so, &se
 	if err := cmd.Start(); err != nil {
